@@ -19,6 +19,8 @@ def text(r):
         else:
             cls = r.choices(CLASSES, weights=w)[0]
             out.append(r.choice(cls))
+    if r.random() < 0.02:
+        out.insert(r.randint(0, len(out)), "@" + "".join(r.choice("abz_09-.:") for _ in range(r.randint(20, 60))))
     return "".join(out)
 
 
